@@ -571,7 +571,7 @@ impl<T> DataReaderEntity<T> {
                     .sample_list
                     .iter()
                     .position(|x| x.source_timestamp > sample.source_timestamp)
-                    .unwrap_or(0);
+                    .unwrap_or(self.sample_list.len());
                 self.sample_list.insert(insert_position, sample);
             }
             DestinationOrderQosPolicyKind::ByReceptionTimestamp => self.sample_list.push(sample),
